@@ -22,7 +22,7 @@ enum Req { Uncached { launch: bool }, CachedKeep { launch: bool, narrow: bool },
 #[derive(Clone, Copy, Debug)]
 enum Fill { Nothing, Everything }
 #[derive(Clone, Copy, Debug)]
-enum Restore { CacheKeepsAll, LaunchOnlyKeepsToml, Vanish }
+enum Restore { CacheKeepsAll, LaunchOnlyKeepsToml, Vanish, SameBuild }
 
 fn types_of(layers: &Path) -> Option<(bool, bool, bool)> {
     let v: toml::Value = toml::from_str(&fs::read_to_string(layers.join("x.toml")).ok()?).ok()?;
@@ -37,12 +37,12 @@ fn metadata_of(layers: &Path) -> Option<toml::Value> {
 pub fn layers(thorough: bool) -> Report {
     let depth = if thorough { 3 } else { 2 };
     let mut r = Report::new(
-        "witness search on a real tempdir: every sequence of `depth` builds over {uncached(launch?), cached+Keep (same or NARROWER metadata type), cached+Delete, cached with metadata that no longer parses + Delete / Replace} x {write nothing, write metadata+env(all scopes)+SBOM+exec.d+file} x restore {cache keeps dir+toml without types, launch-only keeps toml only, everything vanishes}; after every request: directory present, toml declares exactly the requested flags, Restored/Empty as decided, a Restored layer kept every file/SBOM/metadata value, an Empty layer has no file/SBOM/metadata, the sibling layer is untouched; non-trivial = sequences with at least one restored layer",
+        "witness search on a real tempdir: every sequence of `depth` builds over {uncached(launch?), cached+Keep (same or NARROWER metadata type), cached+Delete, cached with metadata that no longer parses + Delete / Replace} x {write nothing, write metadata+env(all scopes)+SBOM+exec.d+file} x what happens before the next request {cache restore keeps dir+toml without types, launch-only restore keeps toml only, everything vanishes, NOTHING (next request in the same build)}; after every request: directory present, toml declares exactly the requested flags, Restored/Empty as decided, a Restored layer kept every file/SBOM/metadata value, an Empty layer has no file/SBOM/metadata, the sibling layer is untouched; non-trivial = sequences with at least one restored layer",
         &format!("depth {depth}"),
     );
     let reqs = [Req::Uncached { launch: true }, Req::Uncached { launch: false }, Req::CachedKeep { launch: true, narrow: false }, Req::CachedKeep { launch: false, narrow: true }, Req::CachedDelete, Req::CachedInvalidDelete, Req::CachedInvalidReplace];
     let fills = [Fill::Nothing, Fill::Everything];
-    let restores = [Restore::CacheKeepsAll, Restore::LaunchOnlyKeepsToml, Restore::Vanish];
+    let restores = [Restore::CacheKeepsAll, Restore::LaunchOnlyKeepsToml, Restore::Vanish, Restore::SameBuild];
     let steps: Vec<(Req, Fill, Restore)> = { let mut v = vec![]; for a in reqs { for b in fills { for c in restores { v.push((a, b, c)); } } } v };
     let mut idx = vec![0usize; depth];
     loop {
@@ -50,7 +50,7 @@ pub fn layers(thorough: bool) -> Report {
         let seq: Vec<_> = idx.iter().map(|&i| steps[i]).collect();
         run_sequence(&seq, &mut r);
         let mut p = depth;
-        loop { if p == 0 { r.samples.push("uncached(launch) +everything, cache restore, cached Keep with a narrower metadata type".into()); return r; } p -= 1; idx[p] += 1; if idx[p] < steps.len() { break; } idx[p] = 0; }
+        loop { if p == 0 { dotted_names(&mut r); r.samples.push("uncached(launch) +everything, cache restore, cached Keep with a narrower metadata type".into()); return r; } p -= 1; idx[p] += 1; if idx[p] < steps.len() { break; } idx[p] = 0; }
     }
 }
 
@@ -133,8 +133,29 @@ fn run_sequence(seq: &[(Req, Fill, Restore)], r: &mut Report) {
         match restore {
             Restore::CacheKeepsAll => { if let Ok(s) = fs::read_to_string(layers.join("x.toml")) { let mut v: toml::Value = toml::from_str(&s).unwrap(); v.as_table_mut().unwrap().remove("types"); fs::write(layers.join("x.toml"), toml::to_string(&v).unwrap()).unwrap(); } }
             Restore::LaunchOnlyKeepsToml => { let _ = fs::remove_dir_all(layers.join("x")); for f in ["cdx", "spdx", "syft"] { let _ = fs::remove_file(layers.join(format!("x.sbom.{f}.json"))); } }
+            Restore::SameBuild => {}   // the next request happens in the SAME build: nothing is stripped or removed in between
             Restore::Vanish => { let _ = fs::remove_dir_all(layers.join("x")); let _ = fs::remove_file(layers.join("x.toml")); for f in ["cdx", "spdx", "syft"] { let _ = fs::remove_file(layers.join(format!("x.sbom.{f}.json"))); } }
         }
     }
     if restored_seen { r.nontrivial += 1; }
+}
+
+// layer names may contain dots: the metadata file of `ruby.gems` is ruby.gems.toml, never ruby.toml (a sibling layer's file)
+fn dotted_names(r: &mut Report) {
+    for (first, second) in [("ruby", "ruby.gems"), ("jdk-17.0", "jdk-17.0.9"), ("ruby.gems", "ruby")] {
+        r.evaluations += 1; r.nontrivial += 1;
+        let t = tempfile::tempdir().unwrap(); let layers = t.path().join("layers"); fs::create_dir_all(&layers).unwrap();
+        let c: BuildContext<B> = ctx(&layers);
+        let a = c.cached_layer(first.parse::<libcnb::data::layer::LayerName>().unwrap(), CachedLayerDefinition { build: true, launch: false, invalid_metadata_action: &|_| InvalidMetadataAction::DeleteLayer, restored_layer_action: &|_: &GenericMetadata, _| RestoredLayerAction::KeepLayer });
+        let Ok(a) = a else { r.violation("dotted_names", "request for a layer failed", format!("{first}"), "Ok".into(), "Err".into()); continue; };
+        a.write_metadata(Rich { version: "3.3".into(), checksum: "c".into() }).unwrap();
+        let before = fs::read_to_string(layers.join(format!("{first}.toml"))).unwrap_or_default();
+        let b = c.uncached_layer(second.parse::<libcnb::data::layer::LayerName>().unwrap(), UncachedLayerDefinition { build: false, launch: true });
+        let input = format!("cached_layer({first:?}, build) + write_metadata, then uncached_layer({second:?}, launch)");
+        if b.is_err() { r.violation("dotted_names", "request for a layer with a dotted name failed", input, "Ok".into(), "Err".into()); continue; }
+        let own: Option<toml::Value> = fs::read_to_string(layers.join(format!("{second}.toml"))).ok().and_then(|s| toml::from_str(&s).ok());
+        let own_types = own.as_ref().and_then(|v| v.get("types")).map(|t| (t.get("launch").and_then(|b| b.as_bool()).unwrap_or(false), t.get("build").and_then(|b| b.as_bool()).unwrap_or(false), t.get("cache").and_then(|b| b.as_bool()).unwrap_or(false)));
+        if own_types != Some((true, false, false)) { r.violation("dotted_names", "the layer's OWN metadata file <name>.toml declares exactly the requested flags", input.clone(), format!("{second}.toml: launch only"), format!("{own_types:?}")); }
+        if fs::read_to_string(layers.join(format!("{first}.toml"))).unwrap_or_default() != before { r.violation("dotted_names", "a layer whose name shares a prefix up to a dot is not touched", input, "unchanged".into(), "changed".into()); }
+    }
 }
